@@ -229,6 +229,15 @@ def check_iso(G, SG, nm, em, rnd):
     if sfull != own and len(SG):
         return ('nosym/incomplete', {'missing': [sorted(x) for x in list(own - sfull)[:3]], 'yielded': len(full),
                                       'expected': len(own)}), info
+    # invariant on the symmetry analysis itself: a coset can never leave the orbit of its node under Aut(pattern)
+    if len(SG):
+        I0 = ISMAGS(G, SG, node_match=node_match, edge_match=edge_match)
+        _, cosets = I0.analyze_symmetry(SG, I0._sgn_partitions, I0._sge_colors)
+        for k, members in cosets.items():
+            orbit = {a[k] for a in auts}
+            if not set(members) <= orbit:
+                return ('symmetry/coset-exceeds-orbit', {'node': k, 'coset': sorted(members), 'orbit': sorted(orbit),
+                                                         'automorphisms': len(auts)}), info
     sym = list(getattr(ISMAGS(G, SG, node_match=node_match, edge_match=edge_match), api)(symmetry=True))
     for m in sym:
         if not sound(G, SG, m, nm, em):
@@ -298,6 +307,34 @@ def check_lcs(G, SG, nm, em):
     return None, info
 
 
+# witness pairs of earlier findings, run on every invocation (pattern nodes, pattern edges, host nodes, host edges;
+# edge colour as third item, all node colours equal)
+PINNED = [
+    ([45, 12, 57, 37, 27, 48], [[45, 12, 0], [45, 48, 0], [45, 57, 1], [12, 27, 1], [12, 37, 0], [57, 48, 0], [57, 27, 0], [37, 48, 1], [37, 27, 0]],
+     [25, 44, 4, 45, 6, 17, 54, 42, 83], [[25, 6, 1], [25, 44, 1], [25, 54, 0], [44, 45, 1], [44, 6, 1], [45, 54, 0], [45, 83, 0], [45, 42, 0], [6, 83, 0], [17, 42, 1], [54, 83, 0]]),
+    ([50, 38, 15, 37, 40, 21], [[50, 21, 0], [50, 15, 0], [50, 38, 1], [38, 40, 0], [38, 21, 0], [15, 40, 1], [15, 37, 0], [37, 40, 0], [37, 21, 1]],
+     [18, 57, 60, 10, 33, 74, 34], [[18, 33, 1], [18, 74, 0], [18, 10, 0], [57, 60, 1], [60, 74, 1], [60, 33, 1], [60, 34, 1], [10, 74, 0], [10, 34, 1], [33, 34, 0]]),
+    ([10, 38, 58, 24, 32, 17], [[10, 24, 0], [10, 17, 1], [38, 24, 1], [38, 58, 0], [58, 32, 1], [32, 17, 0]],
+     [53, 21, 83, 48, 65, 79, 40, 26], [[53, 79, 1], [53, 26, 1], [21, 40, 1], [21, 65, 0], [83, 26, 1], [83, 65, 1], [48, 40, 1], [48, 26, 1]]),
+]
+
+
+def pinned_pairs():
+    for pn, pe, hn, he in PINNED:
+        SG, G = nx.Graph(), nx.Graph()
+        for n in pn:
+            SG.add_node(n, c=0)
+        for u, v, e in pe:
+            SG.add_edge(u, v, e=e)
+        for n in hn:
+            G.add_node(n, c=0)
+        for u, v, e in he:
+            G.add_edge(u, v, e=e)
+        for lcs in (False, True):
+            yield SG, G, True, True, 'pinned', 'pinned', lcs
+        yield SG, SG.copy(), False, True, 'pinned', 'pinned-self', False
+
+
 def cases(tier, seed):
     nb, per = (32, 110) if tier == 'quick' else (160, 700)
     return [{'seed': seed, 'batch': b, 'n': per, 'tier': tier} for b in range(nb)]
@@ -307,9 +344,13 @@ def run_case(params):
     rnd = harness.rng('C06', params['seed'], params['batch'])
     b = harness.Batch()
     limit = 8 if params['tier'] == 'quick' else 20
-    for j in range(params['n']):
-        lcs = rnd.random() < 0.3
-        SG, G, nm, em, kind, hk = gen_pair(rnd, params['tier'], lcs)
+    pinned = list(pinned_pairs()) if params['batch'] == 0 else []
+    for j in range(params['n'] + len(pinned)):
+        if j < len(pinned):
+            SG, G, nm, em, kind, hk, lcs = pinned[j]
+        else:
+            lcs = rnd.random() < 0.3
+            SG, G, nm, em, kind, hk = gen_pair(rnd, params['tier'], lcs)
         b.total += 1
         desc = None
         try:
